@@ -21,12 +21,15 @@ P_C06_Closing == fin = "ne" /\ ~o.alt /\ fs # <<>> =>
 \* the known deviation is not vacuous and not over-approximated
 P_C06_KnownTight == fin # "open" /\ ~(o.alt /\ o.w) => TraceEq(name, fs, fin = "ne", o)
 
+\* through a writer failing at any byte, and with a failing field, the two builders stay indistinguishable
+P_C06_FailStop == fin # "open" => FailStop(name, fs, fin = "ne", o) \/ KnownDeviation(fs, o)
 RECURSIVE Join(_)
 Join(cs) == IF cs = <<>> THEN "" ELSE Head(cs) \o Join(Tail(cs))
+Shown(out) == LET v == View(out) IN Join(v.text) \o (IF v.ok THEN "" ELSE "<ERR>")
 Emit == EmitCases /\ fin # "open" =>
     PrintT(<<"CASE", ToJson([name |-> Join(name), fs |-> fs, ne |-> fin = "ne", o |-> o,
-                             core |-> Join(CoreTuple(name, fs, fin = "ne", o)),
-                             dm |-> Join(DmTuple(name, fs, fin = "ne", o)),
-                             coreStruct |-> Join(CoreStruct(<<"N">>, fs, fin = "ne", o)),
+                             core |-> Shown(CoreTuple(name, fs, fin = "ne", o)),
+                             dm |-> Shown(DmTuple(name, fs, fin = "ne", o)),
+                             coreStruct |-> Shown(CoreStruct(<<"N">>, fs, fin = "ne", o)),
                              known |-> KnownDeviation(fs, o)])>>)
 =============================================================================
